@@ -1257,6 +1257,9 @@ class Interp:
         raise PyRaise(ExcVal('KeyError'))
 
     def setitem(self, obj, idx, v):
+        if isinstance(obj, PList) and isinstance(idx, PSlice):
+            obj.items[self.concrete_slice(idx)] = self.iterate_concrete(v)
+            return
         if isinstance(obj, PList):
             if isinstance(idx, int) and not isinstance(idx, bool):
                 i = self.norm_index(idx, len(obj.items), 'list assignment')
